@@ -46,6 +46,21 @@ func Y() {
 	}
 }
 
+// yieldAfter is the scheduling point right after a lock was released (a
+// goroutine pre-empted between leaving a critical section and its next
+// statement): a light one, like the inserted points.
+func yieldAfter() {
+	if h := HookU; h != nil {
+		var pcs [1]uintptr
+		if runtime.Callers(3, pcs[:]) == 1 {
+			h(pcs[0])
+		}
+	}
+}
+
+// HookU, when set, is called right after an RWMutex was released.
+var HookU func(pc uintptr)
+
 // HookY, when set, is called at every inserted scheduling point with the
 // caller's PC.  It may sleep (fake time).
 var HookY func(pc uintptr)
@@ -176,6 +191,7 @@ func (m *RWMutex) Unlock() {
 	m.writer = false
 	m.grantLocked()
 	m.g.Unlock()
+	yieldAfter()
 }
 
 func (m *RWMutex) RUnlock() {
@@ -189,6 +205,7 @@ func (m *RWMutex) RUnlock() {
 		m.grantLocked()
 	}
 	m.g.Unlock()
+	yieldAfter()
 }
 
 func (m *RWMutex) TryLock() bool {
